@@ -98,7 +98,7 @@ def compare(name, legacy, new, res, case, note=''):
     if legacy[0] != 'ok':
         res.label('both-fail:' + name)
         return
-    res.label('both-succeed:' + name)
+    res.label('both-succeed:' + name, case)
     if legacy[1] != new[1]:
         ld, lp, ll = legacy[1]
         nd, np_, nl = new[1]
@@ -469,7 +469,7 @@ def check_spellings(argspec, res, env=False):
             res.fail('c16:spelling-differs:%s:%s%s' % (label, what, ':after-space' if ws else ''),
                      'argspec %r, call %r: %s gives %s, arguments_spec_list gives %s'
                      % (argspec, src, label, str(r)[:250], str(base[0])[:250]), case)
-    res.label('spellings:%s' % ('env' if env else 'macro'))
+    res.label('spellings:%s' % ('env' if env else 'macro'), {'what': 'spelling', 'argspec': argspec, 'env': env})
     if argspec:
         res.nontriv_distinct(len(results))
 
